@@ -101,6 +101,26 @@ void grids()
         });
       });
     });
+    // three grids, every combination of value categories
+    if (w == 2U || w == 1U)
+      for_cats3([&](auto c1, auto c2, auto c3)
+      {
+        run3<decltype(c1)::value, decltype(c2)::value, decltype(c3)::value>("grid::apply", true, sh + "," + sh + "," + sh, mk, mk, mk,
+            [](auto &&a, auto &&b, auto &&cc)
+        {
+          return fcppt::container::grid::apply([](auto &&x, auto &&y, auto &&z)
+          {
+            cb_scope const g{C05_RECV(x) + "," + C05_RECV(y) + "," + C05_RECV(z)};
+            vec r;
+            r.reserve(3U);
+            r.emplace_back(C05_FWD(x));
+            r.emplace_back(C05_FWD(y));
+            r.emplace_back(C05_FWD(z));
+            return r;
+          },
+          C05_FWD(a), C05_FWD(b), C05_FWD(cc));
+        });
+      });
     // grids of different sizes: the result is empty, nothing may be touched
     if (w == 2U)
       for_cats<'r', 'l'>([&](auto c1)
